@@ -546,7 +546,7 @@ class Roundtrip(Family):
     workers = 8
 
     def generate(self, rng, tier):
-        n_any, n_valid = (90, 30) if tier == "quick" else (1500, 400)
+        n_any, n_valid = (90, 30) if tier == "quick" else (800, 200)
         # a few fixed corner cases first
         empty = gen_desc(rng, tiny=True)
         for t in empty["tables"].values():
@@ -970,7 +970,7 @@ class Equals(Family):
     workers = 8
 
     def generate(self, rng, tier):
-        n = 150 if tier == "quick" else 3000
+        n = 150 if tier == "quick" else 2000
         k = 0
         while k < n:
             d = gen_desc(rng, maxrows=3)
